@@ -1,6 +1,28 @@
 # property table for tools_manifest.py
+T = 'numba bounds checking / numpy index checks are trusted to flag out-of-range indices; the JIT compiles the working tree afresh in every process'
+add('C04', 'reference-model oracle (exact integer arithmetic) over bit-space sweeps of the real compiled decoders; thorough: all 2^32 RVint words executed',
+    'The real unpack_rvint/unpack_pids are executed on complete sweeps of every bit field crossed with complements of the other bits (thorough: every one of the 2^32 RVint words) and compared with an independent integer reference; output-selection modes compared with each other with canaries around supplied outputs. Held = held on those executions.',
+    'reference model written from the documented layout; 1 ulp tolerance for pos/vel, 4 ulp(BoxSize) for lagr_pos', 'DESIGN.md C04')
+add('C06', 'reference-kernel oracle (floor-based analytic TSC/CIC) vs the real painters; bitwise in an exact-arithmetic regime, error-bounded otherwise; metamorphic roll/additivity/accumulate checks',
+    'Hundreds to thousands of paintings by the real tsc_parallel/_tsc_scatter/cic_serial/get_field over adversarial position families, grids, dtypes, offsets and thread/partition settings, each compared cell by cell with an independent kernel. Held = every cell within the stated bound on all executions.',
+    'reference kernel and tolerance model in vlib/mas.py; only validator-accepted partitions are used (races are C07)', 'DESIGN.md C06')
+add('C07', 'prange region recorder (happens-before race monitor over the interpreted code objects) + acceptance sweep + exact-arithmetic multi-thread vs single-thread differential stress',
+    'Every configuration the validator accepts in the sweep is executed with numba.prange replaced by a recorder and the grid by a write-logging array: a cell updated by two iterations of one region is a race under some schedule, decided for all schedules from one execution. Compiled kernels are additionally stressed against the serial result bit for bit. Held = no shared cell in any accepted configuration of the sweep and no differing stress run.',
+    'prange iterations of one region are treated as concurrent when nthread>1, regions as barrier-separated; interpreted bodies are the same code objects as the compiled kernels', 'DESIGN.md C07')
+add('C14', 'chunking driver over the real compress/decompress with a strict codec double, canary red zones and sys.monitoring branch coverage',
+    'Streams written by the real compress() are fed to the real decompress() under every single cut, every pair of cuts, every constant chunk size, inserted empty chunks, exhaustive subsets of prefix-adjacent cut positions (short streams) and random compositions; also end to end through asdf.open with forced IO block sizes. Held = identical bytes/length for every chunking executed, with every reassembly branch observed.',
+    'zlib-based stand-in for python-blosc (strict about frame boundaries); only the framing state machine is claimed', 'DESIGN.md C14')
+add('C15', 'reference decoder + independent encoder oracle over field sweeps, nibble patterns and header/particle interleavings of the real compiled kernel',
+    'Every 12-bit value of each of the six fields, 0x0/0xF nibble patterns, and generated header/particle interleavings are decoded by the real unpack_pack9 in all output modes and both float types and compared with a float64 reference; round trip through an independent encoder within half a quantum.',
+    'record layout as documented in the statement; float32 outputs compared at 8 ulp(BoxSize)', 'DESIGN.md C15')
+add('C17', 'unique-identity workload + extended-precision membership oracle + poison scan on the real compiled partition_parallel',
+    'Calls over N, npartition, coord, dtype, weights, sort and every thread count 1..16; serial numbers in the weights and unused coordinates make permutation, row integrity and weight alignment directly observable; stripe membership against longdouble arithmetic with an explicit 4-ulp tie rule; heap poisoning exposes unwritten rows.',
+    'tie rule: within 4 ulp of a stripe boundary either stripe is accepted', 'DESIGN.md C17')
+add('C18', 'exhaustive execution of the real decoder on all 65340 codes (direct, shuffled, sub-batched, and through the catalogue column loaders) with orthonormality/handedness/distinctness/coverage oracles',
+    'The finite code space is executed completely; coverage of directions is probed with 4M (quick) / 40M (thorough) random plus adversarial directions against a 4 degree bound.',
+    'coverage is sampled, the code space is exhaustive', 'DESIGN.md C18')
 add('C19', 'reference-model oracle + canary red zones + bounds-sanitized numba build over a complete finite grid',
     'Every point of the stated finite grid of (length, flags, offset, dtype pair, output length) is executed on the real compiled cumsum in the production build with canaries around both arrays and in the NUMBA_BOUNDSCHECK=1 build; held means held on that grid.',
     'numba bounds checking is trusted to flag every out-of-range index in serial kernels; values avoid overflow', 'DESIGN.md C19')
-for _p in ['C01','C02','C03','C04','C05','C06','C07','C08','C09','C10','C11','C12','C13','C14','C15','C16','C17','C18','C20']:
+for _p in ['C01','C02','C03','C05','C08','C09','C10','C11','C12','C13','C16','C20']:
     NOT_APPLICABLE[_p] = 'monitor not built yet (work in progress; planned in DESIGN.md)'
